@@ -243,6 +243,28 @@ def rule_DV(ctx, fm):
                       f'{ax}', okl, f'cells visited along {ax} are not those '
                       'between the smallest and largest electrode coordinate '
                       'of this axis', ctx.where(fm, fn))
+    # a coordinate equal to the last node belongs to the LAST cell: the cell
+    # indices returned by min_max_ind are limited to size-2 (the search
+    # `where(v < r_[nodes, inf])[0][0] - 1` gives size-1 there, for which the
+    # cell loops are empty: a segment lying in an upper boundary plane then
+    # contributes nothing and the normalisation divides by zero)
+    mmi = [n for n in fn.body if isinstance(n, ast.FunctionDef) and
+           n.name == 'min_max_ind']
+    ctx.anchor(len(mmi) == 1, 'min_max_ind helper in _dipole_vector')
+    vpar = au.params(mmi[0])[0]
+    rets_ = [r for r in ast.walk(mmi[0]) if isinstance(r, ast.Return)]
+    okm = len(rets_) == 1 and isinstance(rets_[0].value, (ast.List, ast.Tuple))
+    if okm:
+        for e_ in rets_[0].value.elts:
+            okm = okm and (
+                has(f'min({vpar}.size - 2, __)', e_) or
+                has(f'np.clip(__, 0, {vpar}.size - 2)', e_) or
+                has(f'min(__, {vpar}.size - 2)', e_))
+    ctx.check('C10.DV.clipping', '_dipole_vector: cell indices limited to the '
+              'last cell', okm, 'an electrode coordinate equal to the last '
+              'node gets cell index size-1 (no such cell): a segment in an '
+              'upper boundary plane is lost and the source vector becomes NaN',
+              ctx.where(fm, mmi[0]))
     # normalisation guard for all three components, then scaling
     loops = [n for n in fn.body if isinstance(n, ast.For) and find(
         '_f_ /= _s_', n)]
